@@ -70,7 +70,7 @@ def optBind {α β : Type} (x : Option (List α)) (f : List α → Option β) : 
 
 def gridOutcome (s : Sess) (dim mask : Nat) (o : Out Err (Map Val)) : Sess × String :=
   match o with
-  | .ok m => ({ dim := dim, mask := mask, cfg := stdCfg (dim + 1) mask, m := m }, "ok")
+  | .ok m => ({ dim := dim, mask := mask, cfg := stdCfg (dim + 1) mask, m := m.withStorages stdStorages }, "ok")
   | .err e => (s, errStr e)
   | .retry => (s, "retry")
   | .panic => (s, "panic")
